@@ -6,6 +6,7 @@ pub mod c03;
 pub mod c04;
 pub mod c05;
 pub mod c08;
+pub mod c12;
 pub mod c13;
 pub mod c14;
 pub mod c15;
@@ -20,6 +21,7 @@ pub fn property(id: &str) -> Option<Property> {
         "C04" => Some(c04::property()),
         "C05" => Some(c05::property()),
         "C08" => Some(c08::property()),
+        "C12" => Some(c12::property()),
         "C13" => Some(c13::property()),
         "C14" => Some(c14::property()),
         "C15" => Some(c15::property()),
